@@ -1,18 +1,117 @@
 import RtenVerif.Lemmas.OnnxRefBroadcast
+import RtenVerif.Lemmas.OnnxRefIndex
+import RtenVerif.Lemmas.OnnxRefConcat
+import RtenVerif.Lemmas.OnnxRefPad
+import RtenVerif.Lemmas.OnnxRefSlice
 /-!
 # C15 — Operators conform to ONNX reference semantics (partial)
 
-The reference (`Model/OnnxRef.lean`) is written from the ONNX specification text and is
-compared exactly with rten by the harness. The theorems here are *specification-validating
-laws*: algebraic facts every correct implementation of the ONNX text must satisfy, proved for
-all inputs so that the oracle is not trusted blindly.
+Full statement of the property (not provable here): *for every supported ONNX operator, attribute
+setting and input the specification defines, `rten::Model::run` returns the tensor the ONNX reference
+implementation returns.* Neither side is a Lean object: rten's kernels are Rust, and no ONNX reference
+implementation exists in the sandbox. What is done instead:
+
+* `Model/OnnxRef.lean` + `Model/OnnxRefRun.lean`: an executable reference of the integer / index
+  semantics of ~75 operators, written from the specification text (trusted base);
+* the harness compares rten with that reference EXACTLY on single-operator ONNX models;
+* the theorems below are *specification-validating laws*: facts every correct reading of the ONNX text
+  must satisfy, proved for ALL shapes / ranks / values, so that the oracle is not trusted blindly.
+  They are stated on the very functions the driver executes (`bshape`, `build`/`get`, `concat2`,
+  `narrow`, `padCore`, `sliceCore`, `broadcastTo`, `expand`, `binop`).
+
+Float operators (unary math, Softmax, normalisations, Conv, pooling, Resize, …) are outside the model.
 -/
 namespace RtenVerif.OnnxRef
 
-/-- L1. Broadcast shape is commutative. -/
+/-! ## Broadcasting -/
+
+/-- L1. Multidirectional broadcasting of shapes is commutative (failure included). -/
 theorem c15_bshape_comm (a b : List Nat) : bshape a b = bshape b a := bshape_comm a b
+
+/-- L2. … and associative, with `none` (incompatible) propagating the same way on both sides. -/
+theorem c15_bshape_assoc (a b c : List Nat) :
+    (bshape a b).bind (fun s => bshape s c) = (bshape b c).bind (fun s => bshape a s) :=
+  bshape_assoc a b c
 
 example : bshape [2, 1, 3] [4, 1] = some [2, 4, 3] := by decide
 example : bshape [2, 3] [4, 3] = none := by decide
+example : (bshape [2, 1] [3]).bind (fun s => bshape s [4, 1, 1]) = some [4, 2, 3] := by decide
+
+/-! ## Index form: `build` and `get` are inverse -/
+
+/-- L3. The element of `build s f` at a valid index `idx` is `f idx` (row-major layout is coherent). -/
+theorem c15_get_build (s : List Nat) (f : List Nat → Int) (idx : List Nat) (h : validIdx s idx = true) :
+    (build s f).get idx = f idx := get_build s f idx h
+
+/-- L4. A well-formed tensor is determined by its elements: rebuilding from `get` is the identity. -/
+theorem c15_build_get (t : Tensor) (h : t.data.length = prod t.shape) : build t.shape t.get = t :=
+  build_get t h
+
+/-- L5. The enumeration of indices is exactly the row-major order: offsets are `0, 1, …, n-1`. -/
+theorem c15_allIdx_row_major (s : List Nat) : (allIdx s).map (ravel s) = List.range (prod s) :=
+  map_ravel_allIdx s
+
+example : validIdx [2, 3] [1, 2] = true := by decide
+example : (build [2, 2] (fun idx => (getN idx 0 : Int) * 10 + getN idx 1)).data = [0, 1, 10, 11] := by decide
+
+/-! ## Concat / Split -/
+
+/-- L6. `Concat(Split(x))` = `x`: splitting any well-formed tensor along any axis `ax` at any point `k`
+and concatenating the two pieces along the same axis gives the tensor back. -/
+theorem c15_concat_split (x : Tensor) (ax k : Nat) (hwf : x.data.length = prod x.shape)
+    (hax : ax < x.shape.length) (hk : k ≤ getN x.shape ax) :
+    concat2 ax (narrow x ax 0 k) (narrow x ax k (getN x.shape ax - k)) = x :=
+  concat2_narrow x ax k hwf hax hk
+
+example : let x : Tensor := ⟨[2, 3], [1, 2, 3, 4, 5, 6]⟩
+    x.data.length = prod x.shape ∧ 1 < x.shape.length ∧ 1 ≤ getN x.shape 1 := by decide
+example : (narrow ⟨[2, 3], [1, 2, 3, 4, 5, 6]⟩ 1 1 2).data = [2, 3, 5, 6] := by decide
+
+/-! ## Pad / Slice -/
+
+/-- L7. Padding (any mode, any constant) and then slicing the padding away (starts = begin pads,
+steps 1, extent of the original) is the identity. -/
+theorem c15_slice_pad (x : Tensor) (before : List Int) (outDims : List Nat) (mode : String) (c : Int)
+    (hwf : x.data.length = prod x.shape)
+    (hout : outDims.length = x.shape.length)
+    (hnn : ∀ k, k < x.shape.length → 0 ≤ getI before k)
+    (hfit : ∀ k, k < x.shape.length → getI before k + (getN x.shape k : Int) ≤ (getN outDims k : Int)) :
+    sliceCore (padCore x before outDims mode c) before (List.replicate x.shape.length 1) x.shape = x :=
+  slice_padCore x before outDims mode c hwf hout hnn hfit
+
+example : (padCore ⟨[3], [1, 2, 3]⟩ [2] [6] "reflect" 0).data = [3, 2, 1, 2, 3, 2] := by decide
+example : (sliceCore (padCore ⟨[3], [1, 2, 3]⟩ [2] [6] "edge" 0) [2] [1] [3]).data = [1, 2, 3] := by decide
+
+/-- L8. Slice ∘ Slice is one Slice: starts compose affinely and steps multiply (steps of either
+sign), whenever the second slice stays inside the extent of the first. -/
+theorem c15_slice_slice (x : Tensor) (st1 sp1 st2 sp2 : List Int) (d1 d2 : List Nat)
+    (hlen : d2.length = d1.length)
+    (hin : ∀ idx, validIdx d2 idx = true → ∀ k, k < d1.length →
+      0 ≤ getI st2 k + (getN idx k : Int) * getI sp2 k ∧
+      getI st2 k + (getN idx k : Int) * getI sp2 k < (getN d1 k : Int)) :
+    sliceCore (sliceCore x st1 sp1 d1) st2 sp2 d2 =
+      sliceCore x ((List.range d1.length).map (fun k => getI st1 k + getI st2 k * getI sp1 k))
+        ((List.range d1.length).map (fun k => getI sp1 k * getI sp2 k)) d2 :=
+  sliceCore_sliceCore x st1 sp1 st2 sp2 d1 d2 hlen hin
+
+-- x[8:0:-2] = [8,6,4,2] then [3:0:-1] → [2,4,6] = x[2:8:2]
+example : (sliceCore (sliceCore ⟨[10], [0, 1, 2, 3, 4, 5, 6, 7, 8, 9]⟩ [8] [-2] [4]) [3] [-1] [3]).data = [2, 4, 6] := by
+  decide
+example : (sliceCore ⟨[10], [0, 1, 2, 3, 4, 5, 6, 7, 8, 9]⟩ [8 + 3 * -2] [-2 * -1] [3]).data = [2, 4, 6] := by decide
+
+/-! ## Expand -/
+
+/-- L9. Expanding (broadcasting) a tensor to its own shape is the identity. -/
+theorem c15_expand_self (x : Tensor) (hwf : x.data.length = prod x.shape) : broadcastTo x x.shape = x :=
+  broadcastTo_self x hwf
+
+/-- L10. `Expand` = broadcast: `Expand(x, shape)` is the left projection of the broadcasting binary
+operator applied to `x` and any tensor of shape `shape` (same result, same failure). -/
+theorem c15_expand_eq_broadcast (x : Tensor) (sh : List Int) (y : Tensor) (hnn : sh.all (· ≥ 0) = true)
+    (hy : y.shape = sh.map Int.toNat) : expand x sh = binop (fun v _ => v) x y :=
+  expand_eq_binop x sh y hnn hy
+
+example : (match expand ⟨[2, 1], [1, 2]⟩ [1, 3] with | .ok t => (t.shape, t.data) | .error _ => ([], []))
+    = ([2, 3], [1, 1, 1, 2, 2, 2]) := by decide
 
 end RtenVerif.OnnxRef
